@@ -31,20 +31,35 @@ COND_MIN = 1e-3       # predict-reproduces-embedding is compared only if sigma_m
 #                       un-normalised embedding row has norm > COND_MIN (the hypothesis sigma != 0 of the theorem)
 TOL_PREDICT = 1e-7    # predict(row i) vs embedding_row_[i] under that conditioning guard
 
-RULE = ('all undirected graphs n<=4 (loops n<=3) x decomposition x regularisation x normalised for Spectral; all 0/1 '
-        'biadjacency matrices up to 3x3 for GSVD/SVD/PCA; structured random weighted graphs (connected, disconnected, '
-        'isolated nodes, directed -> bipartite route) n<=12 and random rectangular matrices x the parameter grid '
-        '(n_components incl. clamped, factor_row/col/singular, regularisation None/0/positive/negative, normalised); '
-        'RandomProjection x (random_walk, regularisation, n_iter, alpha); LouvainEmbedding x isolated_nodes; a degenerate '
-        'stream (1 node, empty matrix, n_components <= 0 or too large, rank-deficient, explicit zeros). '
+SOLVER_EXCEPTION_BUDGET = {'quick': 40, 'thorough': 150}   # fits lost to ARPACK / LAPACK (counted, never judged)
+EVALUATION_FLOOR = {'quick': 3000, 'thorough': 15000}      # a run that evaluates less did not check the property
+
+RULE = ('all undirected graphs n<=4 (loops n<=3; unit or random symmetric weights for n=4) x decomposition x regularisation x '
+        'normalised for Spectral; all 0/1 biadjacency matrices up to 3x3 for GSVD/SVD/PCA; structured random weighted graphs '
+        '(connected, disconnected, isolated nodes, self-loops, directed -> bipartite route) n<=12, larger graphs n in 24..40 '
+        '(ARPACK with ncv < n), rectangular matrices, x the parameter grid (n_components incl. clamped, factor_row/col/singular, '
+        'regularisation None/0/positive/negative, normalised) x three solver paths (exact dense SVD object with scrambled order, '
+        'recording LanczosSVD object, the default solver="lanczos" by name); a quarter of the inputs in another container '
+        '(csc/coo/lil/dense), dtype (float32/int64/bool) or storage (unsorted indices, duplicate entries); matrices with '
+        'explicitly stored zeros (bridging components or one-sided) x regularisation incl. -1; the operators Laplacian / '
+        'Regularizer / Normalizer on their own with negative, zero and positive factor; predict on rows of the fitted matrix '
+        'incl. empty rows; RandomProjection x (random_walk, regularisation, n_iter, alpha); LouvainEmbedding x isolated_nodes; '
+        'a degenerate stream (1 node, empty matrix, n_components <= 0 or too large, rank-deficient, stored zeros, isolated node). '
         'A case is non-trivial when the estimator did not raise and returned at least one component on a matrix with '
-        'at least two stored entries; distinct = distinct (estimator, matrix, parameters, check).')
+        'at least two stored entries; distinct = distinct (estimator, matrix, parameters, variant, check).')
 ASSUMPTIONS = [
     'ARPACK (eigsh/svds) and LAPACK return eigenpairs / singular triplets of the operator they are given: checked on every '
-    'captured output by contract lines (residual <= TOL_CONTRACT*scale); a captured output that fails it is skipped and counted',
-    'that ARPACK returns the *extreme* pairs is not verified',
+    'captured output by contract lines (residual <= TOL_CONTRACT*scale, orthonormal vectors); a failing contract is counted '
+    'and the public outputs are judged by the spec lines all the same',
+    'extremality (which part of the spectrum) and the number of components are judged against a dense LAPACK oracle '
+    '(numpy eigvalsh / svd of the small operator); not judged for n > 20 when the part of the spectrum at the cut is '
+    'degenerate (a Lanczos process finds one copy of a multiple eigenvalue): counted as degenerate-spectrum-skipped',
+    'an exception of the solver itself (ArpackError, LinAlgError) removes the fit (counted, budget %r per run: above it the '
+    'run is a tool failure); any other exception is a disagreeing run line; a run with fewer than %r evaluations is a tool failure'
+    % (SOLVER_EXCEPTION_BUDGET, EVALUATION_FLOOR),
     'np.linalg.qr / RandomState.normal are redrawn by the harness from the same seed; Louvain labels are captured',
-    'scipy sparse products, np.argsort (ties are skipped for the run line and judged by the spec line alone)',
+    'scipy sparse products, np.argsort: the run line is skipped when two captured values are exactly equal (both sides sort '
+    'the same floats, so exact equality is the only tie), the spec line alone judges then',
 ]
 
 CAP = {}
@@ -184,10 +199,6 @@ def call(f):
         return f()
     except ERRORS as e:
         return 'err ' + type(e).__name__
-
-
-SOLVER_EXCEPTION_BUDGET = {'quick': 40, 'thorough': 150}   # fits lost to ARPACK / LAPACK (counted, never judged)
-EVALUATION_FLOOR = {'quick': 3000, 'thorough': 15000}      # a run that evaluates less did not check the property
 
 
 def run_est(ctx, f):
@@ -430,8 +441,10 @@ def spectral_oracle(adj, reg, rw, nc):
         lap = s[:, None] * lap * s[None, :]
     w = np.linalg.eigvalsh((lap + lap.T) / 2)
     count = max(0, min(nc, n - 2))
+    window = w[:count + 2]
+    degenerate = bool(len(window) > 1 and np.min(np.diff(window)) < 1e-6 * (1 + np.abs(w).max()))
     w = w[1:1 + count]
-    return (1 - w) if rw else w
+    return ((1 - w) if rw else w), degenerate
 
 
 def fit_spectral(ctx, a, nc, dec, reg, normalized, fb=False, variant=None):
@@ -485,11 +498,10 @@ def fit_spectral(ctx, a, nc, dec, reg, normalized, fb=False, variant=None):
         cases.append(Case(gkey + ('lapmv',), dict(sig0, check='laplacian-operator', entry='Laplacian.dot'),
                           'c09.lapmv %d %s %s %s %s' % (n, enc_mat(adj), enc_f(reg_eff), enc_bool(rw), enc_vec(x)),
                           'ok v=' + out_vec(mv), None, a.nnz > 1, desc))
-        if not ok and not solver_ok:
-            ctx.count('contract-failed:eigsh')
-            return cases
+        # a failing contract is not excused: LanczosEig (tolerance, number of iterations, which) is part of the code, so
+        # the public outputs are judged by the spec lines in every case; the counters say what happened
         if not ok:
-            ctx.count('operator-mismatch:Laplacian')
+            ctx.count('operator-mismatch:Laplacian' if solver_ok else 'contract-failed:eigsh')
         k_out = len(est.eigenvalues_)
         nontriv = a.nnz > 1 and k_out >= 1
         impl = 'ok which=%s bip=%s reg=%s k=%d ev=%s evec=%s emb=%s embcol=%s' % (
@@ -503,10 +515,15 @@ def fit_spectral(ctx, a, nc, dec, reg, normalized, fb=False, variant=None):
                                                           enc_vec(est.eigenvalues_), enc_mat(est.eigenvectors_), enc_f(TOL_SPEC))
         cases.append(Case(gkey + ('run',), dict(sig0, check='eigen-equation'), run, impl, spec, nontriv, desc))
         # extremality and count: the documented part of the spectrum, from a dense eigendecomposition
-        want = spectral_oracle(adj, reg, rw, nc)
-        cases.append(spec_case(gkey + ('extreme',), dict(sig0, check='extremal-eigenvalues'),
-                               'c09.spec_extreme %s %s %s' % (enc_vec(want), enc_vec(est.eigenvalues_), enc_f(TOL_SPEC)),
-                               desc, nontriv))
+        want, degenerate = spectral_oracle(adj, reg, rw, nc)
+        if degenerate and n > 20:
+            # a Lanczos process started from one vector finds one copy of a multiple eigenvalue; with ncv = 20 < n ARPACK
+            # may miss the other copies (unregularised disconnected graphs): the multiset is not judged there
+            ctx.count('degenerate-spectrum-skipped')
+        else:
+            cases.append(spec_case(gkey + ('extreme',), dict(sig0, check='extremal-eigenvalues'),
+                                   'c09.spec_extreme %s %s %s' % (enc_vec(want), enc_vec(est.eigenvalues_), enc_f(TOL_SPEC)),
+                                   desc, nontriv))
         full = np.vstack([est.embedding_row_, est.embedding_col_]) if bip else est.embedding_
         if normalized:
             cases.append(spec_case(gkey + ('unit',), dict(sig0, check='unit-norm'),
@@ -645,11 +662,8 @@ def fit_svd(ctx, kind, a, nc, reg=None, fr=0.5, fc=0.5, fs=0., normalized=True, 
                                   'c09.svdpost %d %d %s %s %s' % (nr, ncol, enc_mat(u0), enc_vec(s0), enc_mat(vt0)),
                                   'ok which=%s sv=%s left=%s right=%s' % (which, out_vec(sv_c), out_mat(u_c), out_mat(v_c)),
                                   None, True, desc))
-        if not ok and not solver_ok:
-            ctx.count('contract-failed:' + solver)
-            return cases
         if not ok:
-            ctx.count('operator-mismatch:' + kind)
+            ctx.count(('operator-mismatch:' + kind) if solver_ok else ('contract-failed:' + solver))
         k_out = len(est.singular_values_)
         nontriv = a.nnz > 1 and k_out >= 1
         run = head + ' %s %s %s' % (enc_vec(sv_c), enc_mat(u_c), enc_mat(v_c))
